@@ -688,7 +688,7 @@ struct static_array  // NOLINT(fuchsia-multiple-inheritance) : multiple inherita
 	#pragma clang diagnostic ignored "-Wunsafe-buffer-usage"  // TODO(correaa) use checked span
 	#endif
 
-	constexpr auto operator=(static_array&& other) noexcept -> static_array& {  // lints  (cppcoreguidelines-special-member-functions,hicpp-special-member-functions)
+	constexpr auto operator=(static_array&& other) noexcept(std::is_nothrow_move_assignable_v<T>) -> static_array& {  // lints  (cppcoreguidelines-special-member-functions,hicpp-special-member-functions)
 		assert(extensions(other) == static_array::extensions());  // NOLINT(cppcoreguidelines-pro-bounds-array-to-pointer-decay,hicpp-no-array-decay) : allow a constexpr-friendly assert
 		adl_move(other.data_elements(), other.data_elements() + other.num_elements(), this->data_elements());  // there is no std::move_n algorithm
 		assert(this->stride() != 0);
@@ -716,10 +716,10 @@ struct static_array  // NOLINT(fuchsia-multiple-inheritance) : multiple inherita
 	}
 
  private:
-	void swap_(static_array& other) noexcept { operator()().swap(other()); assert(this->stride() != 0);}
+	void swap_(static_array& other) noexcept(std::is_nothrow_swappable_v<T>) { operator()().swap(other()); assert(this->stride() != 0);}
 
  public:
-	friend void swap(static_array& lhs, static_array& rhs) noexcept {
+	friend void swap(static_array& lhs, static_array& rhs) noexcept(std::is_nothrow_swappable_v<T>) {
 		lhs.swap_(rhs);
 	}
 };
@@ -1073,7 +1073,7 @@ struct static_array<T, ::boost::multi::dimensionality_type{0}, Alloc>  // NOLINT
 	#pragma clang diagnostic ignored "-Wunsafe-buffer-usage"
 	#endif
 
-	constexpr auto operator=(static_array&& other) noexcept -> static_array& {
+	constexpr auto operator=(static_array&& other) noexcept(std::is_nothrow_move_assignable_v<T>) -> static_array& {
 		assert(equal_extensions_if_(std::integral_constant<bool, (static_array::rank_v != 0)>{}, other));  // NOLINT(cppcoreguidelines-pro-bounds-array-to-pointer-decay,hicpp-no-array-decay) : allow a constexpr-friendly assert
 		adl_move(other.data_elements(), other.data_elements() + other.num_elements(), this->data_elements());  // there is no std::move_n algorithm
 		return *this;
